@@ -50,11 +50,14 @@ class Log(object):
         self.jac_req_done = 0
         self.detail_rhs = False
         self.system = None
-        self.rhs_budget = 400000
+        self.rhs_budget = 120000
+        self.event_budget = 250000
 
     def emit(self, name, **kw):
         if not self.enabled:
             return
+        if len(self.events) > self.event_budget:
+            raise BudgetExceeded("more than %d events" % self.event_budget)
         ev = {"e": name}
         ev.update(kw)
         s = self.system
